@@ -313,7 +313,7 @@ func newEvmCase(seed uint64, stats map[string]int) *evmCase {
 		}
 	}
 	c.tok, c.tokAddr, c.tokHex, c.hub, c.hubAddr = tok, tokAddr, evmHex(tokAddr), hub, hubAddr
-	c.initV = L(U(evmPowerThreshold), evmMembersV(c.cur), Z(userBal))
+	c.initV = L(U(evmPowerThreshold), evmMembersV(c.cur), Z(userBal), U(c.head()))
 	return c
 }
 
